@@ -131,6 +131,25 @@ def main():
             for ver in (0, 1):
                 hb = marshal.dumps(v, ver)
                 attempt(fh, "loads%d:%s" % (ver, vid), lambda: rec("loads%d:%s" % (ver, vid), hb, xm.loads(hb)))
+        # values that a token list cannot express: the same object reachable twice without a cycle, and sets whose members cannot be
+        # ordered with "<" (complex numbers; tuples that differ in a position holding None/int/str)
+        d_, l_, t_ = {"k": 1}, [1, "two"], (3, None)
+        extras = [[d_, d_], (d_, 7, d_), [l_, l_, [l_]], (t_, t_), [d_, [d_, l_], l_],
+                  {1j, 2j}, frozenset([1j, 2 - 3j, 4.5]), {(1, None), (1, 2)}, frozenset([("a", 1), ("a", "b")]), {(0, 1j), (0, 2j)},
+                  [{1j, 2j}, frozenset([(1, None), (1, 2)])]]
+        for n_, v in enumerate(extras):
+            vid = "extra:%d" % n_
+            box = {}
+
+            def dumps():
+                box["b"] = xm.dumps(v)
+                return rec("dumps:" + vid, box["b"], v)
+            attempt(fh, "dumps:" + vid, dumps)
+            if "b" in box:
+                attempt(fh, "hostld:" + vid, lambda: rec("hostld:" + vid, box["b"], marshal.loads(box["b"])))
+            for ver in (0, 1):
+                hb = marshal.dumps(v, ver)
+                attempt(fh, "loads%d:%s" % (ver, vid), lambda: rec("loads%d:%s" % (ver, vid), hb, xm.loads(hb)))
 
 
 main()
